@@ -27,6 +27,14 @@ CLAIMS = {
         "resolutions, start time and source name and hold a copy of the data. Bounded native reference loops replay the clauses.",
    note="trusted: pyvc engine, numpy axioms, Sum extensionality; sigma-clip normalisation branch and attached blimpy Waterfall (C03) not verified here",
    technique="contract-based deductive verification (AST->z3/cvc5 VCs with loop invariant + lemma); bounded native replay"),
+ 'C18': dict(cat='proof', ref='DESIGN.md 2/C18',
+   text="Every list primitive of Cadence/OrderedCadence (construction, append/extend/pop via the stdlib mixins interpreted from source, insert, "
+        "item assignment, deletion, int/slice/list/ndarray/tuple selection, labels, set_order, by_label, aggregates) is a Hoare triple over an "
+        "arbitrary pre-state: `frames` is a list of symbolic length of references into a symbolic frame heap, the post-state is compared with "
+        "CPython list semantics by reference identity at a fresh index, and the guard's exceptional postcondition (not added) is discharged. "
+        "Induction over operations covers every history; a bounded native run compares random histories with a plain list.",
+   note="trusted: pyvc engine (heap/list model), stdlib Sequence.__iter__ semantics for symbolic length, filter-comprehension library spec; set_order assumes distinct positions hold distinct frames",
+   technique="contract-based deductive verification (Hoare triples over a symbolic heap and symbolic-length list, loop invariants for extend/set_order); bounded native replay"),
 }
 NA_REASON = "not yet built in this session (see DESIGN.md build order)"
 
